@@ -1300,8 +1300,26 @@ class Intra:
             base = f.value
             # super().m(...)
             if isinstance(base, ast.Call) and isinstance(base.func, ast.Name) and base.func.id == "super":
-                rv = self.name_val(self.selfname, st) if self.selfname else OTHERV
-                cands = self.prog.candidates(self.fi.cls, m, "super") if self.fi.cls else []
+                if len(base.args) == 2:
+                    # super(C, x) is a proxy for x: the receiver is the value of x, resolved in the MRO after C
+                    rv = self.ev(base.args[1], st)
+                    start = None
+                    if isinstance(base.args[0], ast.Name):
+                        start = self.prog.lookup_name(self.mod, base.args[0].id)
+                        if not isinstance(start, ClassInfo):
+                            start = self.fi.cls if base.args[0].id == "__class__" else None
+                    if start is not None:
+                        cands = self.prog.candidates(start, m, "super")
+                    else:
+                        cands = self.prog.candidates_any(m, tensorlike=True)
+                else:
+                    rv = self.name_val(self.selfname, st) if self.selfname else OTHERV
+                    cands = self.prog.candidates(self.fi.cls, m, "super") if self.fi.cls else []
+                if not cands and rv.lvl:
+                    if m.endswith("_") and not m.endswith("__"):
+                        self.event("call", e, rv, note=f"unresolved `super().{m}`: trailing underscore => modifies")
+                    elif rv.lvl == ORIG:
+                        self.assumed.add(f"super().{m}()")
                 out = self.apply(e, st, cands, rv, argvals, bound=True, label=f"super().{m}")
                 if m == "__init__" and out.lvl and self.selfname and rv.lvl == OTHER:
                     # the base constructor stored (part of) the argument into the object under construction
@@ -1335,6 +1353,8 @@ class Intra:
                      "print", "range", "callable", "issubclass", "abs", "sum", "all", "any", "round"):
                 return OTHERV
             if n == "super":
+                if len(argvals) == 2:
+                    return argvals[1]
                 return self.name_val(self.selfname, st) if self.selfname else OTHERV
             if n in self.fnvars:
                 if self.fnvars[n]:
